@@ -377,7 +377,12 @@ class Judge:
 
         _mon_init()
         mon = sys.monitoring
-        ctx = self.core if wl == 0 else self.full
+        # a private copy of the context for every parse: with allow_unregistered a parse
+        # *registers* every unknown op / attribute name it meets in the context (e.g. a bare
+        # `return` outside func.func becomes a known unregistered op and then shadows the
+        # dialect-stack lookup of `func.return` in every later parse), so a shared context
+        # makes the outcome of a parse depend on what was parsed before
+        ctx = (self.core if wl == 0 else self.full).clone()
         res: dict[str, Any] = {"outcome": "", "events": 0}
         _clock["n"] = 0
         _clock["budget"] = STEP_K * (len(text) + 64)
